@@ -1,2 +1,27 @@
-/-! Line driver for C14 (stub; replaced when the model is written). -/
-def main : IO Unit := pure ()
+import MpVerif.C14.Show
+/-! Line driver for C14.  No logic of its own: parses a case line, calls `readSol`,
+prints the result canonically.
+
+`case <id> <flags: bit0 = fx, bit1 = fm> <nVars> <nCons> <optRv> <dualAct> <primalAct> <sufAct> <hex bytes | ->`
+act ::= `all` | `some:<k>` | `err:<k>:<code number>` -/
+open MpVerif.C14 MpVerif.C14.Show
+
+def runCase (w : List String) : String :=
+  match w with
+  | ["case", id, fx, nv, nc, rv, da, pa, sa, bytes] =>
+    match fx.toNat?, nv.toNat?, nc.toNat?, rv.toInt?, parseAct da, parseAct pa, parseAct sa, unhex bytes with
+    | some fx, some nv, some nc, some rv, some da, some pa, some sa, some bytes =>
+      let r := readSol (fx % 2 != 0) (fx / 2 % 2 != 0) nv nc ⟨rv, da, pa, sa⟩ bytes
+      s!"{id} {showResult r}"
+    | _, _, _, _, _, _, _, _ => "bad-op"
+  | _ => "bad-op"
+
+partial def loop (h : IO.FS.Stream) (out : IO.FS.Stream) : IO Unit := do
+  let line ← h.getLine
+  if line.isEmpty then return ()
+  out.putStrLn (runCase (line.trimAscii.toString.splitOn " "))
+  loop h out
+
+def main : IO Unit := do
+  let out ← IO.getStdout
+  loop (← IO.getStdin) out
